@@ -241,6 +241,9 @@ func c12CheckDist(c c12DistCase) (v vcase.Verdict) {
 		if math.Abs(p.x) > 1e100 {
 			v.Label("x_huge")
 		}
+		if c.Kind == "t" && p.x != 0 && p.x*p.x < 1e-10*c.V && p.x*p.x > 1e-24*c.V {
+			v.Label("x²/ν in [1e-24,1e-10]") // where ν/(ν+x²) alone cannot carry x
+		}
 		if !math.IsNaN(p.mirror) {
 			p.fm = dist.CDF(p.mirror)
 			all = append(all, p.mirror)
@@ -328,10 +331,10 @@ func c12CheckDist(c c12DistCase) (v vcase.Verdict) {
 			// The CDF is the integral of the implementation's own PDF.
 			var own float64
 			if c.Kind == "t" {
-				own, ok = refstat.CDFByIntegration(dist.PDF, z)
+				own, ok = refstat.CDFByIntegration(dist.PDF, z, 2e-11)
 			} else {
 				sig, mu := c.Sigma, c.Mu
-				own, ok = refstat.CDFByIntegration(func(u float64) float64 { return sig * dist.PDF(mu+u*sig) }, z)
+				own, ok = refstat.CDFByIntegration(func(u float64) float64 { return sig * dist.PDF(mu+u*sig) }, z, 2e-11)
 			}
 			if ok {
 				// For the normal case with |μ| ≫ σ the argument μ+uσ of the
